@@ -124,6 +124,14 @@ TH_JSON = (None, 0, 1, 1.5, 2, 3, 'inf', -1, 300)
 
 
 def hl_forms(D, named):
+    if not named:
+        # plain arrays: a channel position computed with NumPy (np.argmax, an element of np.arange) is an integer too
+        extra = [np.int64(0), np.intp(D - 1), np.int32(-1), [np.int64(D - 1), 0]]
+        return _hl_forms(D, named) + extra
+    return _hl_forms(D, named)
+
+
+def _hl_forms(D, named):
     if D == 1:
         f = [None, 0, [0], -1]
         if named:
@@ -165,9 +173,9 @@ def run_high_low(c, res):
                 if form is None:
                     sel = list(range(Dd))
                 elif isinstance(form, (list, tuple)):
-                    sel = [f if isinstance(f, int) else int(f[2:]) - 1 for f in form]
+                    sel = [int(f) if isinstance(f, (int, np.integer)) else int(f[2:]) - 1 for f in form]
                 else:
-                    sel = [form if isinstance(form, int) else int(form[2:]) - 1]
+                    sel = [int(form) if isinstance(form, (int, np.integer)) else int(form[2:]) - 1]
                 sel = [s % Dd for s in sel]
                 for hi_i, hi in enumerate(TH):
                     for lo_i, lo in enumerate(TH):
@@ -231,7 +239,9 @@ def run_ellipse(c, res):
     d = FlowCal.io.FCSData(p)
     cx, cy = c['center']
     single = c.get('single')
-    conts = [('arr', arr, [0, 2]), ('fcs', d, ['CH1', 'CH3']), ('fcs-swap', d, [2, 'CH1'])]
+    conts = [('arr', arr, [0, 2]), ('fcs', d, ['CH1', 'CH3']), ('fcs-swap', d, [2, 'CH1']),
+             # the same channel twice (two channels are specified; both coordinates of an event are then its value in that channel)
+             ('arr-same', arr, [0, 0]), ('fcs-same', d, ['CH1', 0])]
     if all(float(x) == int(x) and x >= 0 for v in vals for x in v):
         # the same events held in integer types (signed array, unsigned loaded sample)
         iarr = np.array([[int(v[0]), 3, int(v[1])] for v in vals], dtype=np.int64)
@@ -263,6 +273,8 @@ def run_ellipse(c, res):
                     for (x, y) in pts:
                         if swap:
                             x, y = y, x
+                        if cn.endswith('-same'):
+                            y = x
                         dx, dy = x - cx, y - cy
                         if th == 0.0:
                             q = (Fraction(dx) / Fraction(a)) ** 2 + (Fraction(dy) / Fraction(b)) ** 2
@@ -275,8 +287,18 @@ def run_ellipse(c, res):
                             exp.append(q <= 1)
                             amb.append(abs(q - 1) < 1e-9)
                     if not cn.endswith('-int'):          # the integer containers hold the grid only
-                        exp += [False] * len(nonpos)
-                        amb += [False] * len(nonpos)
+                        for v_ in nonpos:
+                            if cn.endswith('-same') and v_[0] > 0:
+                                # only the first value counts here; it is positive, so the event has coordinates (log10 x, log10 x)
+                                lx = math.log10(v_[0])
+                                dx, dy = lx - cx, lx - cy
+                                xr, yr = ct * dx + st * dy, -st * dx + ct * dy
+                                q = (xr / a) ** 2 + (yr / b) ** 2
+                                exp.append(q <= 1)
+                                amb.append(abs(q - 1) < 1e-9)
+                            else:
+                                exp.append(False)
+                                amb.append(False)
                     got = np.asarray(full.mask).tolist()
                     if len(got) == len(exp):
                         exp = [g if am else e for g, e, am in zip(got, exp, amb)]
